@@ -545,6 +545,35 @@ GenDotNums == \E b \in 1..Len(DotBlockCtx), i \in 1..Len(DotEnds), j \in 1..Len(
 GenMlComments == \E b \in 1..Len(MlCtx), t \in 1..Len(MlTexts), f \in 1..Len(MlFlags), p \in 1..Len(MlPositions) :
   Emit("mlcomment", <<MlCtx[b], t, f, MlPositions[p]>>, InDeep(MlCtx[b], MlPlace(MlPositions[p], Cmt(MlTexts[t], MlFlags[f][1], MlFlags[f][2]))))
 
+\* ---- map literals of every size (round 5).  The pairs of a map literal live in a Go map next to the slice that
+\* remembers their source order (ast.MapLiteral.Pairs / .Order): whoever walks the pairs - the printer, a pass through
+\* ast.Modify, the function-value printer - has to follow the slice, and a walk that does not shows only with TWO OR
+\* MORE keys, more surely the more keys there are, and only by looking repeatedly (C03) or at the order (C02).
+\* n = 0..6 (thorough ..9) pairs of three key styles, in every position a map literal can stand in.
+MapKey(kind, i) ==
+  CASE kind = "str" -> StrB(<<107, 48 + i>>)                                    \* "k1" "k2" ..
+    [] kind = "int" -> IntL(ToString(10 - i))                                   \* 9 8 7 .. (source order is not sorted order)
+    [] OTHER        -> IF i % 3 = 1 THEN StrB(<<122 - i>>) ELSE IF i % 3 = 2 THEN IntL(ToString(i)) ELSE Id(<<"c", "d", "g">>[i \div 3])
+MapVal(kind, i) ==
+  CASE kind = "mix" /\ i % 4 = 1 -> Arr(<<One, Id("x")>>)
+    [] kind = "mix" /\ i % 4 = 2 -> MapL(<< <<StrB(<<98>>), One>>, <<StrB(<<97>>), Two>> >>)   \* a map in a map
+    [] kind = "mix" /\ i % 4 = 3 -> Lam(<<"y">>, <<Id("y")>>)
+    [] OTHER                     -> IntL(ToString(i))
+MapN(kind, n) == MapL([i \in 1..n |-> <<MapKey(kind, i), MapVal(kind, i)>>])
+MapKinds == <<"str", "int", "mix">>
+MapSizes == IF Thorough THEN <<0, 1, 2, 3, 4, 5, 6, 7, 8, 9>> ELSE <<0, 2, 3, 4, 6>>
+MapCtx == << [ctx |-> "stmt", op |-> ""], [ctx |-> "infR", op |-> "="], [ctx |-> "infR", op |-> "+"], [ctx |-> "callA", op |-> ""],
+             [ctx |-> "arrE", op |-> ""], [ctx |-> "mapV", op |-> ""], [ctx |-> "idxL", op |-> ""], [ctx |-> "dotL", op |-> ""],
+             [ctx |-> "ret", op |-> ""], [ctx |-> "forAsg", op |-> ""], [ctx |-> "ifT", op |-> ""], [ctx |-> "biA", op |-> ""] >>
+MapFnForms == <<"lambda1", "named", "anon", "nested">>
+GenMaps == \E k \in 1..Len(MapKinds), n \in 1..Len(MapSizes) :
+  \/ \E p \in 1..Len(MapCtx) :
+       Emit("maps", <<MapCtx[p].ctx, MapCtx[p].op, MapKinds[k], MapSizes[n]>>, <<Plug(MapCtx[p], MapN(MapKinds[k], MapSizes[n]))>>)
+  \/ \E f \in 1..Len(MapFnForms) :   \* as (part of) the body of a function: the function VALUE holds the tree
+       \/ Emit("maps", <<MapFnForms[f], "body", MapKinds[k], MapSizes[n]>>, <<FvForm(MapFnForms[f], MapN(MapKinds[k], MapSizes[n]))>>)
+       \/ Emit("maps", <<MapFnForms[f], "asg", MapKinds[k], MapSizes[n]>>,
+               <<FvForm(MapFnForms[f], Asg(FALSE, Id("m"), MapN(MapKinds[k], MapSizes[n])))>>)
+
 GenSources == \E b \in 1..Len(SrcBlockNames), h \in 1..Len(SrcHeads), s \in 1..Len(SrcSeps), t \in 1..Len(SrcTails) :
   EmitSrc("source", <<SrcBlockNames[b], h, s, t>>, SrcIn(SrcBlockNames[b], SrcHeads[h] \o SrcSeps[s] \o SrcTails[t]))
 
@@ -569,4 +598,5 @@ Next == /\ phase = 0
            \/ "dotnum" \in Families /\ GenDotNums
            \/ "mlcomment" \in Families /\ GenMlComments
            \/ "source" \in Families /\ GenSources
+           \/ "maps" \in Families /\ GenMaps
 =============================================================================
